@@ -14,11 +14,12 @@ from vlib import core
 
 MODULES = ["TLVerif.Props.C42"]
 THEOREMS = ["TLVerif.Props.C42." + t for t in [
-    "admit_within_size", "admit_within_size_history", "cur_accounting", "nonforced_never_pushes_above",
+    "code_shape", "admit_within_size", "admit_within_size_history", "cur_accounting", "nonforced_never_pushes_above", "cur_bounded_without_force",
     "no_lost_wakeup_fails_at", "no_lost_wakeup_full_fails", "hanging_history_state",
-    "no_lost_wakeup_step_partial", "zero_gap_exact", "no_lost_wakeup_partial", "no_lost_wakeup_positive",
-    "release_restores", "setSize_restores", "cancel_preserves",
-    "queue_in_arrival_order", "fifo_admission", "fifo_history", "queue_conservation", "no_overflow_bound"]]
+    "no_lost_wakeup_step_partial", "zero_gap_exact", "no_lost_wakeup_partial", "no_lost_wakeup_positive", "no_lost_wakeup_fixed", "fixed_differs_only_in_gap",
+    "release_restores", "setSize_restores", "release_admits_front", "setSize_admits_front", "cancel_preserves",
+    "cancel_not_admitted", "failed_acquire_unchanged", "reachable_wf", "acquire_returns_once",
+    "queue_in_arrival_order", "fifo_admission", "fifo_history", "queue_conservation", "waitEmpty_idle_neutral", "no_overflow_bound"]]
 
 # the concrete failing case line of the known finding (known_findings.d/C42.json)
 KNOWN_ZERO_GAP = "sema.h 1 t1,a1,a0,c0"
@@ -56,6 +57,10 @@ class Oracle:
         if len(p) != 5:
             return None, [("fail", "operation %s: no observation (%s)" % (tok, word))]
         res = p[0]
+        panics = 0  # WaitEmpty callers admitted during this operation whose Release(size) panicked
+        if "!" in res:
+            res, _, pz = res.partition("!")
+            panics = int(pz) if pz.isdigit() else -1
         try:
             cur2, size2 = int(p[1]), int(p[2])
             q2 = [] if p[3] == "-" else [int(x) for x in p[3].split(".")]
@@ -64,7 +69,10 @@ class Oracle:
             return None, [("fail", "operation %s: malformed observation %s" % (tok, word))]
         c = tok[0]
         n = int(tok[1:]) if len(tok) > 1 else 0
-        legal = {"a": ("ok", "blk", "doom", "panic"), "x": ("ok", "err", "panic"), "t": ("T", "F", "panic"),
+        we = c == "w"  # WaitEmpty = Acquire(ctx, size) ; Release(size)
+        if we:
+            c, n = "a", size
+        legal = {"a": ("ok", "blk", "panic") if we else ("ok", "blk", "doom", "panic"), "x": ("ok", "err", "panic"), "t": ("T", "F", "panic"),
                  "r": ("ok", "panic"), "f": ("ok", "panic"), "s": ("ok",), "c": ("err", "noop"), "o": ("ok",)}[c]
         if res not in legal:
             return None, [("fail", "operation %s returned %s" % (tok, res))]
@@ -77,6 +85,9 @@ class Oracle:
             over = c == "r" and n >= 0 and cur - n < 0
             if not (n < 0 and c in "axtrf") and not over:
                 fails.append(("fail", "undocumented panic in %s" % tok))
+        # --- an Acquire that the size can satisfy must wait IN the queue (a caller parked outside it is never woken)
+        if res == "doom" and n <= size:
+            fails.append(("fail", "%s (weight %d <= size %d) is parked outside the queue: it can never be admitted" % (tok, n, size)))
         # --- queue before admissions: arrival at the back, cancelled ticket removed
         qb = list(queue)
         own = None
@@ -85,7 +96,7 @@ class Oracle:
             own = nxt
             nxt += 1
             if res == "blk":
-                qb.append((own, n))
+                qb.append((own, n, we))
         if c == "c" and res == "err":
             if qb and qb[0][0] == n:
                 cancelled_front = True
@@ -105,6 +116,25 @@ class Oracle:
         if [e[1] for e in rest] != q2:
             fails.append(("fail", "queue after %s is %s, expected %s" % (tok, q2, [e[1] for e in rest])))
             return None, fails
+        # --- WaitEmpty callers admitted now run Release(size) at once, which can admit further waiters: the phases
+        #     cannot be told apart from outside, so only the overall balance is checked for such operations
+        kwe = sum(1 for e in qb[:k] if e[2]) + (1 if we and direct else 0)
+        if panics < 0 or panics > kwe:
+            fails.append(("fail", "%d panics reported but %d WaitEmpty callers were admitted" % (panics, kwe)))
+        if kwe:
+            run = cur + (n if direct else 0) + sum(e[1] for e in qb[:k]) - kwe * size2
+            if c == "r" and n >= 0:
+                run -= n
+            if c == "f" and res == "ok":
+                run += n
+            if run != cur2:
+                fails.append(("fail", "cur is %d after %s, admissions/releases (incl. %d WaitEmpty releases of %d) account for %d"
+                              % (cur2, tok, kwe, size2, run)))
+            asleep = bool(q2) and q2[0] <= size2 - cur2
+            if asleep and not panics and not tainted:
+                fails.append(("fail", "lost wake-up after %s: first waiter of weight %d fits into size-cur=%d and is asleep"
+                              % (tok, q2[0], size2 - cur2)))
+            return (size2, cur2, tuple(rest), nxt, asleep), fails
         # --- accounting and the admission bound (size in force = size after the op)
         run = cur
         if c == "r" and n >= 0:
@@ -115,7 +145,7 @@ class Oracle:
             run += n
             if run > size2:
                 fails.append(("fail", "%s admitted weight %d: total %d exceeds size %d" % (tok, n, run, size2)))
-        for (t, w) in qb[:k]:
+        for (t, w, _) in qb[:k]:
             run += w
             if run > size2:
                 fails.append(("fail", "waiter %d (weight %d) admitted: total %d exceeds size %d" % (t, w, run, size2)))
@@ -192,7 +222,7 @@ def exhaustive(sizes, length, base, max_cancel):
                 return
             for t in base:
                 prefix.append(t)
-                rec(prefix, depth + 1, tickets + (1 if t[0] in "ax" else 0))
+                rec(prefix, depth + 1, tickets + (1 if t[0] in "axw" else 0))
                 prefix.pop()
             for k in range(min(tickets, max_cancel)):
                 prefix.append("c%d" % k)
@@ -209,15 +239,34 @@ class Sim:
         self.size, self.cur, self.q, self.next, self.held, self.doomed = size, 0, [], 0, [], []
 
     def notify(self):
+        rel = 0
         while self.q and self.size - self.cur >= self.q[0][1]:
-            t, w = self.q.pop(0)
+            t, w, we = self.q.pop(0)
             self.cur += w
-            self.held.append(w)
+            if we:
+                rel += 1
+            else:
+                self.held.append(w)
+        for _ in range(rel):  # WaitEmpty callers release the current size at once
+            if self.size >= 0:
+                self.cur -= self.size
+                if self.cur >= 0:
+                    self.notify()
 
     def do(self, tok):
         c = tok[0]
         n = int(tok[1:]) if len(tok) > 1 else 0
-        if c in "ax":
+        if c == "w":
+            t = self.next
+            self.next += 1
+            if self.size < 0:
+                return
+            if self.cur <= 0 and not self.q:
+                if self.cur < 0:
+                    pass  # Release panics, cur unchanged overall
+            else:
+                self.q.append((t, self.size, True))
+        elif c in "ax":
             t = self.next
             self.next += 1
             if n < 0:
@@ -229,7 +278,7 @@ class Sim:
                 if c == "a":
                     self.doomed.append(t)
             elif c == "a":
-                self.q.append((t, n))
+                self.q.append((t, n, False))
         elif c == "t":
             if n >= 0 and self.size - self.cur >= n and not self.q:
                 self.cur += n
@@ -249,7 +298,7 @@ class Sim:
             self.size = n
             self.notify()
         elif c == "c":
-            if any(t == n for t, _ in self.q):
+            if any(e[0] == n for e in self.q):
                 front = self.q[0][0] == n
                 self.q = [e for e in self.q if e[0] != n]
                 if front and self.size > self.cur:
@@ -258,7 +307,7 @@ class Sim:
                 self.doomed.remove(n)
 
 
-def random_history(rng, length, maxsize, maxw, zero_ok, wild):
+def random_history(rng, length, maxsize, maxw, zero_ok, wild, wait_empty=False):
     size0 = rng.range(0, maxsize)
     sim = Sim(size0)
     toks = []
@@ -281,7 +330,7 @@ def random_history(rng, length, maxsize, maxw, zero_ok, wild):
         elif r < 62:
             tok = "t%d" % weight()
         elif r < 76:
-            live = [t for t, _ in sim.q] + sim.doomed
+            live = [e[0] for e in sim.q] + sim.doomed
             if live and not rng.chance(1, 8):
                 tok = "c%d" % (live[0] if rng.chance(1, 2) else rng.choice(live))
             else:
@@ -294,9 +343,83 @@ def random_history(rng, length, maxsize, maxw, zero_ok, wild):
             tok = "x%d" % weight()
         else:
             tok = "o"
+        if wait_empty and rng.chance(1, 8):
+            tok = "w"
         toks.append(tok)
         sim.do(tok)
     return "sema.h %d %s" % (size0, ",".join(toks))
+
+
+def sstep(st, tok):
+    """Pure reference step on (size, cur, queue, next, doomed) — generator steering only (see Sim)."""
+    size, cur, q, nxt, doomed = st
+    c = tok[0]
+    n = int(tok[1:]) if len(tok) > 1 else 0
+
+    def notify(size, cur, q):
+        q = list(q)
+        while q and size - cur >= q[0][1]:
+            cur += q.pop(0)[1]
+        return cur, tuple(q)
+    if c in "ax":
+        t = nxt
+        nxt += 1
+        if n < 0:
+            pass
+        elif size - cur >= n and not q:
+            cur += n
+        elif n > size:
+            if c == "a":
+                doomed = doomed + (t,)
+        elif c == "a":
+            q = q + ((t, n),)
+    elif c == "t":
+        if n >= 0 and size - cur >= n and not q:
+            cur += n
+    elif c == "r":
+        if n >= 0:
+            cur -= n
+            if cur >= 0:
+                cur, q = notify(size, cur, q)
+    elif c == "f":
+        if n >= 0:
+            cur += n
+    elif c == "s":
+        size = n
+        cur, q = notify(size, cur, q)
+    elif c == "c":
+        if any(t == n for t, _ in q):
+            front = q[0][0] == n
+            q = tuple(e for e in q if e[0] != n)
+            if front and size > cur:
+                cur, q = notify(size, cur, q)
+        elif n in doomed:
+            doomed = tuple(t for t in doomed if t != n)
+    return (size, cur, q, nxt, doomed)
+
+
+def transition_cover(sizes, depth, base):
+    """Breadth-first over the reference state space: one history per state reachable within depth-1 operations,
+    extended by EVERY operation of `base` and the cancel of every live ticket: every transition out of every such state."""
+    out = []
+    for sz in sizes:
+        pre = "sema.h %d " % sz
+        st0 = (sz, 0, (), 0, ())
+        seen = {st0: ""}
+        frontier = [st0]
+        for _ in range(depth):
+            nf = []
+            for st in frontier:
+                h = seen[st]
+                hp = h + "," if h else ""
+                for op in list(base) + ["c%d" % t for t, _ in st[2]] + ["c%d" % t for t in st[4]]:
+                    out.append(pre + hp + op)
+                    ns = sstep(st, op)
+                    if ns not in seen:
+                        seen[ns] = hp + op
+                        nf.append(ns)
+            frontier = nf
+    return out
 
 
 FULL = (["a%d" % w for w in range(4)] + ["t%d" % w for w in range(4)] + ["r%d" % w for w in range(4)] +
@@ -305,6 +428,30 @@ NEG = ["a-1", "t-1", "r-1", "f-1", "s-1", "x-1"]
 MID = ["a0", "a1", "a2", "a3", "t1", "t2", "r0", "r1", "r2", "s0", "s1", "s3", "f1", "x1"]
 CORE = ["a0", "a1", "a2", "t1", "r1", "r2", "s0", "s2"]
 TINY = ["a0", "a1", "a2", "r1", "s1"]
+WMID = ["w", "a0", "a1", "a2", "t1", "t2", "r1", "r2", "s0", "s1", "s3", "f1"]  # with WaitEmpty
+
+
+def gobuild(c, name, ov, race):
+    """Same as Check.harness (go build -tags verif -overlay) but returns (argv, rc, output) instead of finishing,
+    so that both harness variants can be built in the background while Lean builds."""
+    import json
+    srcdir = os.path.join(ROOT, "go", "hsema")
+    pkg = "internal/verifh/hsema"
+    m = {}
+    for fn in sorted(os.listdir(srcdir)):
+        if fn.endswith(".go"):
+            m[os.path.join(core.REPO, pkg, fn)] = os.path.join(srcdir, fn)
+    for k, v in ov.items():
+        m[os.path.join(core.REPO, k)] = v
+    ovf = os.path.join(c.workdir, "overlay-%s.json" % name)
+    json.dump({"Replace": m}, open(ovf, "w"))
+    binp = os.path.join(c.workdir, "bin", name)
+    os.makedirs(os.path.dirname(binp), exist_ok=True)
+    if os.path.exists(binp):
+        os.remove(binp)
+    cmd = ["go", "build", "-tags", "verif", "-overlay", ovf, "-o", binp] + (["-race"] if race else []) + ["./" + pkg]
+    rc, out = core.run(cmd, cwd=core.REPO, env=core.goenv())
+    return [binp], rc, out
 
 
 def run_soak(cmd, lines, jobs):
@@ -338,12 +485,21 @@ def run_soak(cmd, lines, jobs):
 
 
 def run(c):
+    ov = {"internal/vkgo/pkg/semaphore/verif_hooks.go": os.path.join(ROOT, "go", "hsema", "overlay", "verif_hooks.go")}
+    built = {}
+    ths = [threading.Thread(target=lambda n=n, r=r: built.__setitem__(n, gobuild(c, n, ov, r)))
+           for n, r in (("hsema", False), ("hsema-race", True))]
+    for t in ths:
+        t.start()
+    c.facts(["Sema"])
     c.lean(MODULES, THEOREMS, sources=["TLVerif.Sema.Semaphore", "TLVerif.Sema.SemaphoreLemmas", "TLVerif.Sema.Driver"])
     model = c.model_exe()
-    ov = {"internal/vkgo/pkg/semaphore/verif_hooks.go": os.path.join(ROOT, "go", "hsema", "overlay", "verif_hooks.go")}
-    impl = c.harness("hsema", overlays=ov)
-    impl_race = c.harness("hsema-race", srcdir=os.path.join(ROOT, "go", "hsema"), pkg="internal/verifh/hsema",
-                          overlays=ov, race=True)
+    for t in ths:
+        t.join()
+    for n in ("hsema", "hsema-race"):
+        if built[n][1] != 0:
+            c.build_failed(n, built[n][2])
+    impl, impl_race = built["hsema"][0], built["hsema-race"][0]
     rng = c.rng
     c.trusted += ["go/hsema harness (goroutine per blocking Acquire, observable-Done context, in-package snapshot "
                   "overlay VerifSnapshot taking the semaphore's own mutex)",
@@ -356,6 +512,30 @@ def run(c):
                       "the order in which waiters admitted by ONE notifyWaiters call return is not observable; the "
                       "oracle checks that the admitted set is a prefix of the queue",
                       "concurrent -race mixes are search only (not reproducible from the seed)"]
+
+    orc = Oracle()
+    stats = {"known": 0, "lines": 0}
+
+    def process(name, lines, procs="1"):
+        """tie + oracle on one batch (batches keep memory flat in the thorough tier).  The sequential driver needs no
+        parallelism inside one harness process: GOMAXPROCS=1 halves its cost; the random batch runs with 4."""
+        B = 400000
+        env = dict(os.environ)
+        env["GOMAXPROCS"] = procs
+        for i in range(0, len(lines), B):
+            res = c.tie(name, lines[i:i + B], impl, model, nontrivial=lambda l, a: a != "bad-op", env=env)
+            stats["lines"] += len(res)
+            for l, a, _ in res:
+                if a in ("panic", "CRASH"):
+                    c.oracle_fail(l, "harness did not survive the history (%s)" % a, l)
+                    continue
+                for kind, text in eval_line(orc, l, a):
+                    if kind == "zero-gap":
+                        stats["known"] += 1
+                        if stats["known"] <= 20 or l == KNOWN_ZERO_GAP:
+                            c.oracle_fail(KNOWN_ZERO_GAP, text, l)
+                    else:
+                        c.oracle_fail(l, text, l)
 
     lines = []
     if c.replay:
@@ -370,54 +550,50 @@ def run(c):
               "sema.h x a1", "sema.h 1 q1", "sema.h 1", "sema.h 1 a1,,r1", "sema.h 1 c-1", "sema.h 1 a", "sema.q 1 a1",
               "sema.h 1 c1x", "sema.h 1 a1 r1", "sema.h 9223372036854775808 a1", "sema.h +1 a+1,c0,c2147483647",
               "sema.h 1 c2147483648", "sema.h 1 a1_0", "sema.h 1 c+0", "sema.h 1 a--1", "sema.h 1 c1_0",
-              "sema.h 1 a9223372036854775807,r-9223372036854775808", "sema.h 0x1 a1", "sema.h 1 a0x1"]
+              "sema.h 1 a9223372036854775807,r-9223372036854775808", "sema.h 0x1 a1", "sema.h 1 a0x1",
+              "sema.h 1 t1,w,s5,r1", "sema.h 1 t1,w,w,s0,r1,o", "sema.h 2 w,t2,w,a1,r2,r1", "sema.h -1 w", "sema.h 2 t1,r2,w",
+              "sema.h 1 w1", "sema.h 1 t1,w,c0,w,w,r1"]
     sizes = [0, 1, 2, 3]
     if c.thorough:
-        lines += exhaustive(sizes, 4, FULL, 4)
-        lines += exhaustive(sizes, 2, FULL + NEG, 2)
-        lines += exhaustive(sizes, 5, MID, 3)
-        lines += exhaustive([1, 2, 3], 6, CORE, 3)
         nrand, nlong = 150000, 20000
     else:
-        lines += exhaustive(sizes, 3, FULL, 3)
-        lines += exhaustive(sizes, 2, FULL + NEG, 2)
-        lines += exhaustive(sizes, 4, MID, 3)
-        lines += exhaustive([1, 2], 6, TINY, 2)
-        lines += exhaustive([1, 2, 3], 5, CORE, 3)
         nrand, nlong = 20000, 2000
     for i in range(nrand):
         lines.append(random_history(rng, rng.range(4, 24), rng.range(0, 5), rng.range(1, 5), rng.chance(1, 2), rng.chance(1, 3)))
     for i in range(nlong):
         lines.append(random_history(rng, rng.range(40, 300), rng.range(1, 12), rng.range(1, 9), rng.chance(1, 3), rng.chance(1, 4)))
+    for i in range(nrand // 4):
+        lines.append(random_history(rng, rng.range(4, 40), rng.range(0, 5), rng.range(1, 5), rng.chance(1, 2), rng.chance(1, 3), True))
     # malformed operation words inside otherwise valid histories
     for i in range(200):
         l = random_history(rng, rng.range(1, 6), 3, 3, True, False).split(" ")
         toks = l[2].split(",")
         toks[rng.below(len(toks))] = rng.choice(["", "z1", "a1.5", "c-1", "r", "o1", "a+", "t0x10", "A1", "c1c"])
         lines.append(" ".join(l[:2]) + " " + ",".join(toks))
-
-    res = c.tie("histories", lines, impl, model,
-                nontrivial=lambda l, a: a != "bad-op")
-    orc = Oracle()
-    known = 0
-    for l, a, _ in res:
-        if a in ("panic", "CRASH"):
-            c.oracle_fail(l, "harness did not survive the history (%s)" % a, l)
-            continue
-        for kind, text in eval_line(orc, l, a):
-            if kind == "zero-gap":
-                known += 1
-                if known <= 20 or l == KNOWN_ZERO_GAP:
-                    c.oracle_fail(KNOWN_ZERO_GAP, text, l)
-            else:
-                c.oracle_fail(l, text, l)
-    c.count("oracle:zero-gap-occurrences", known)
+    process("random", lines, "4")
+    if c.thorough:
+        plan = [("exh-full4", lambda: exhaustive(sizes, 4, FULL, 4)), ("exh-neg2", lambda: exhaustive(sizes, 2, FULL + NEG, 2)),
+                ("exh-mid5", lambda: exhaustive([1, 2], 5, MID, 3)), ("exh-core6", lambda: exhaustive([1, 2, 3], 6, CORE, 3)),
+                ("exh-we5", lambda: exhaustive([0, 1, 2], 5, WMID, 3)),
+                ("cover7", lambda: transition_cover(sizes, 7, FULL + NEG))]
+        desc = "[(full 25 ops w<=3, L=4, sizes 0..3), (mid 14 ops, L=5, sizes 1..2), (core 8 ops, L=6, sizes 1..3), (12 ops incl. WaitEmpty, L=5, sizes 0..2)]; transition cover depth 7"
+    else:
+        plan = [("exh-full3", lambda: exhaustive(sizes, 3, FULL, 3)), ("exh-neg2", lambda: exhaustive(sizes, 2, FULL + NEG, 2)),
+                ("exh-mid4", lambda: exhaustive([1, 2], 4, MID, 3)), ("exh-core5", lambda: exhaustive([1, 2], 5, CORE, 3)),
+                ("exh-tiny6", lambda: exhaustive([2], 6, TINY, 2)), ("exh-we4", lambda: exhaustive([0, 1, 2], 4, WMID, 3)), ("cover5", lambda: transition_cover(sizes, 5, FULL + NEG))]
+        desc = "[(full 25 ops w<=3, L=3, sizes 0..3), (mid 14 ops, L=4, sizes 1..2), (core 8 ops, L=5, sizes 1..2), (tiny 5 ops, L=6, size 2), (12 ops incl. WaitEmpty, L=4, sizes 0..2)]; transition cover depth 5"
+    for name, gen in plan:
+        ls = gen()
+        c.count("lines:" + name, len(ls))
+        process(name, ls)
+        del ls
+    c.count("oracle:zero-gap-occurrences", stats["known"])
 
     # ---------------- concurrent mixes under the race detector (search only)
     soak = []
     nsoak = 96 if c.thorough else 24
     for i in range(nsoak):
-        mode = [0, 4, 7, 23, 3, 31, 12, 5][i % 8]
+        mode = [0, 4, 7, 23, 3, 31, 12, 5, 36, 44, 32, 15][i % 12]
         size = rng.range(1, 6)
         maxw = rng.range(1, size) if mode & 3 == 0 and mode & 4 == 0 else rng.range(1, size + 2)
         soak.append("sema.soak %d %d %d %d %d %d" % (rng.below(2**31), rng.range(2, 12), 400 if c.thorough else 150,
@@ -438,12 +614,19 @@ def run(c):
         elif out != "ok":
             c.oracle_fail(l, "concurrent mix: " + (out or ("no output, rc=%d %s" % (rc, err[-200:]))), l)
 
+    # informational probe (WaitEmpty is not in the property's operation list): WaitEmpty reads s.size outside the
+    # mutex, which races with SetSize.  Recorded in the evidence, never a verdict.
+    probe = run_soak(impl_race, ["sema.soak %d 6 300 3 3 34" % rng.below(2**31)], 1)[0]
+    c.extra["waitempty_setsize_probe"] = (
+        "race detector reports a data race between WaitEmpty (unsynchronised read of s.size) and SetSize"
+        if "DATA RACE" in probe[2] and "WaitEmpty" in probe[2] else "no race reported in this run (%s)" % probe[1][:60])
+
     c.extra["rule"] = (
-        "sema.h lines = whole sequential histories on NewWeighted(size0): exhaustive over every history of exactly L "
-        "operations for (alphabet, L) in %s with cancel of every issued ticket, sizes 0..3; %d random histories of length 4..24 and "
-        "%d of length 40..300 steered by a reference simulator (mostly valid releases/cancels, some misuse, negative and huge "
-        "arguments), malformed operation words; distinct = distinct line text, non-trivial = not rejected as bad-op. "
-        "sema.soak lines = %d concurrent random mixes on the -race build (modes: fixed size / cancellation / force+resize / "
-        "weight 0), invariants sampled under the semaphore's own lock; search only." % (
-            "[(full 25 ops w<=3, 4), (mid 14 ops, 5), (core 8 ops, 6)]" if c.thorough else
-            "[(full 25 ops w<=3, 3), (mid 14 ops, 4), (core 8 ops, 5), (tiny 5 ops, 6)]", nrand, nlong, nsoak))
+        "sema.h lines = whole sequential histories on NewWeighted(size0). Exhaustive: every history of exactly L operations "
+        "over an alphabet plus the cancel of every issued ticket, for (alphabet, L, sizes) in %s (= from every reference state "
+        "reachable within depth-1 operations of the full alphabet incl. negative arguments, every operation and every cancel "
+        "of a live ticket). Random: %d histories of length 4..24 and %d of length 40..300 steered by a reference simulator "
+        "(mostly valid releases/cancels, some misuse, negative and huge arguments), malformed operation words. distinct = "
+        "distinct line text, non-trivial = not rejected as bad-op. sema.soak lines = %d concurrent random mixes on the -race "
+        "build (modes: fixed size / cancellation / force+resize / weight 0 / WaitEmpty), invariants sampled under the semaphore's own "
+        "lock; search only." % (desc, nrand, nlong, nsoak))
